@@ -2,26 +2,45 @@
 
 package rpc
 
-import "reflect"
+import (
+	"reflect"
+	"sync/atomic"
+)
 
 // Verification hooks (build tag "verif"): trace and yield points for the external
 // verification harness, and read-only accessors. They add no behaviour of their own.
 
-// VerifTrace, when set, is called at trace points (possibly inside critical sections: it must not block).
-var VerifTrace func(point, key string)
+// SetVerifHooks installs (or, with nil, removes) the hooks. trace is called at trace points (possibly
+// inside critical sections: it must not block); yield is called at yield points (never inside a
+// critical section: it may park the goroutine).
+func SetVerifHooks(trace, yield func(point, key string)) {
+	if trace == nil {
+		verifTraceHook.Store(nil)
+	} else {
+		verifTraceHook.Store(&trace)
+	}
 
-// VerifYield, when set, is called at yield points (never inside a critical section: it may park the goroutine).
-var VerifYield func(point, key string)
+	if yield == nil {
+		verifYieldHook.Store(nil)
+	} else {
+		verifYieldHook.Store(&yield)
+	}
+}
+
+var (
+	verifTraceHook atomic.Pointer[func(point, key string)]
+	verifYieldHook atomic.Pointer[func(point, key string)]
+)
 
 func verifTrace(point, key string) {
-	if h := VerifTrace; h != nil {
-		h(point, key)
+	if h := verifTraceHook.Load(); h != nil {
+		(*h)(point, key)
 	}
 }
 
 func verifYield(point, key string) {
-	if h := VerifYield; h != nil {
-		h(point, key)
+	if h := verifYieldHook.Load(); h != nil {
+		(*h)(point, key)
 	}
 }
 
